@@ -340,7 +340,9 @@ func c18BuildClasses(c *engine.C) ([]*jg.Class, map[*jg.Class][]c18Method, jg.La
 
 // ---- (e) concept words ----------------------------------------------------------------------------------
 
-var c18Names = []string{"findUser", "find", "findUserById", "getName", "x", "saveOrderItem", "orderItem", "calculateTotalPrice", "user"}
+var c18Names = []string{"findUser", "find", "findUserById", "getName", "x", "saveOrderItem", "orderItem", "calculateTotalPrice", "user",
+	// names that merely begin with the letters of an accessor prefix, and real accessors of acronyms
+	"setup", "getall", "settings", "setURL", "getname", "set"}
 
 func refSegment(name string) []string {
 	var words []string
@@ -410,6 +412,16 @@ func c18ConceptGen(c *engine.C) engine.Case {
 			}
 		}
 		res.Outcome = strings.Join(rows, " ")
+		got := map[string]int{}
+		for _, p := range pl {
+			got[p.Key] += p.Value
+		}
+		for w, n := range want {
+			if got[w] != n {
+				res.Violations = append(res.Violations, engine.V("concept", "word-count", "word %q counted %d times, the method names %v contain it %d times; listed %v", w, got[w], names, n, rows))
+				break
+			}
+		}
 		if sum != total {
 			res.Violations = append(res.Violations, engine.V("concept", "sum", "word counts sum to %d, the method names %v contain %d non-stop words (%v); listed %v", sum, names, total, want, rows))
 		}
